@@ -70,12 +70,16 @@ func (o TreeOpts) key(t *rapid.T) string {
 	return k
 }
 
+// FunctionLikeTypes: entity type names whose first component is the name of an extension function or method (legal: only
+// `Name(` is a call, `Name::` starts a path).
+var FunctionLikeTypes = []string{"ip", "decimal", "datetime::X", "duration::Kind::Sub", "contains", "isIpv4::T", "lessThan", "toDate"}
+
 // HostileEntity draws an entity uid whose id may be any string.
 func HostileEntity(t *rapid.T, o TreeOpts) ir.Value {
 	if chance(t, 70, "plainent") {
 		return EntityVal(t)
 	}
-	return ir.Ent(pick(t, append([]string{ActionType, "A::B::C", "_x::y1"}, EntityTypes...), "hetype"), HostileString(t, o))
+	return ir.Ent(pick(t, append(append([]string{ActionType, "A::B::C", "_x::y1"}, EntityTypes...), FunctionLikeTypes...), "hetype"), HostileString(t, o))
 }
 
 // HostilePattern draws a like pattern over hostile literals (may be empty, may contain empty literals and
